@@ -8,7 +8,8 @@ Tie: correspondence.  (1) 8 kinds of prescription (Sinusoid at the three levels,
 Acceleration, lock over a Motion) x with/without a Rod constraint x random 4-body trees: after prescribe + realize(Acceleration)
 the prescribed q / u / udot are compared with the extracted model evaluated in double precision (1e-14), calcMotionErrors must
 vanish, the certificate (same system without prescription under f - tau) must reproduce udot (1e-9; with f + tau it must NOT),
-and after unlock / disable the accelerations must equal those of a State with nothing prescribed.  (2) the lock state machine:
+and after unlock / disable the accelerations must equal those of a State with nothing prescribed.  (3) a Motion on a Ball / Free / Gimbal / Bushing / Ellipsoid: getQDot / getQDotDot / u / udot
+must equal the Motion's values, and u, udot the extracted qdot = N(q) u model (position level).  (2) the lock state machine:
 random sequences of lock / lockAt / unlock / setQ / setU / enable-disable Motion / prescribe on a Pin, compared after every
 operation with the model (lock level and recorded value exactly; q, u, prescribed udot to 1e-14)."""
 import os, re, json
@@ -16,8 +17,8 @@ from vlib import *
 
 PROPS = ['Props/Properties_C10.v']
 EXTRACT = '''From Coq Require Import Extraction ExtrOcamlBasic.
-Require Import Num C10_Model.
-Extraction "c10.ml" step run presc presc_udot lock_value motion_values.
+Require Import Num Vec rot_gen C10_Model C10_PrescModel.
+Extraction "c10.ml" step run presc presc_udot lock_value motion_values presc_all.
 '''
 
 def build(ctx):
@@ -106,12 +107,71 @@ def run(ctx):
             same = px[1] == py[1] and ((px[2] == '-') == (py[2] == '-')) and (px[2] == '-' or fh(px[2]) == fh(py[2])) \
                 and near(fh(px[3]), fh(py[3])) and near(fh(px[4]), fh(py[4])) and ((px[5] == '-') == (py[5] == '-')) and (px[5] == '-' or near(fh(px[5]), fh(py[5]), 1e-13))
             if not same and lockfirst is None: lockfirst = (cur, k, x, y)
+    # ---------------- (3) Motion on multi-coordinate mobilizers (Ball, Free, Gimbal, Bushing, Ellipsoid): implementation-side predicate
+    # (the outcome is known by construction: the Motion's value and its time derivatives) + the extracted qdot = N(q) u model
+    import math
+    nmb = 4 if ctx.tier == 'quick' else 40
+    mbc = []
+    for mt in range(5):
+        for mk in range(4):
+            for eu in (1, 0):
+                if mk == 0 and not eu and mt in (0, 1, 4): continue      # position-level Sinusoid on a quaternion: q is not a free 4-vector
+                for _ in range(nmb if not (mk == 0 and mt in (0, 1, 4)) else 3 * nmb): mbc.append((rng.randrange(1, 10**6), mt, mk, eu))
+    r3, o3, e3 = sh([exe], input=''.join('MB %d %d %d %d\n' % x for x in mbc), timeout=3000)
+    mb = [l for l in o3.split('\n') if l.startswith('MB ')]; mbthr = [l for l in o3.split('\n') if l.startswith('MBTHROW')]
+    if r3 != 0 or len(mb) + len(mbthr) != len(mbc): ctx.broken.append(('correspondence:harness-mb', 'harness rc=%d, %d of %d systems reported; %s' % (r3, len(mb), len(mbc), e3[-300:])))
+    for t_ in mbthr[:1]: ctx.broken.append(('correspondence:throw-mb', t_))
+    mbfirst = None; nmbeval = 0; mbworst = {'qdot': 0.0, 'qdotdot': 0.0, 'u': 0.0, 'udot': 0.0, 'motion_error': 0.0, 'model_u': 0.0, 'model_udot': 0.0}
+    mbdist = {}; pbq = []
+    for l in mb:
+        parts = [x.split() for x in l.split('|')]
+        hd = parts[0]; seed, mt, mk, eu = int(hd[1]), int(hd[2]), int(hd[3]), int(hd[4]); A, w, ph, t = [float.fromhex(x) for x in hd[5:9]]
+        q, qd, qdd, u, ud = [[float.fromhex(x) for x in pp] for pp in parts[1:6]]; errs = [float(x) for x in parts[6]]
+        mbdist[(mt, mk, eu)] = mbdist.get((mt, mk, eu), 0) + 1
+        sv, cv = A * math.sin(w * t + ph), A * w * math.cos(w * t + ph); dv = -A * w * w * math.sin(w * t + ph)
+        prob = None
+        def chk(nm, got, exp, tol):
+            nonlocal prob, nmbeval
+            for i, g in enumerate(got):
+                nmbeval += 1; d = abs(g - exp); mbworst[nm] = max(mbworst[nm], d)
+                if d > tol * max(1.0, abs(exp)): prob = prob or '%s[%d] = %r, the Motion prescribes %r' % (nm, i, g, exp)
+        if mk == 0: chk('qdot', qd, cv, 1e-12); chk('qdotdot', qdd, dv, 1e-11); chk('u', [], 0, 0)
+        if mk == 0 and not prob:
+            for i, g in enumerate(q):
+                if abs(g - sv) > 1e-13: prob = prob or 'q[%d] = %r, the Motion prescribes %r' % (i, g, sv)
+        if mk == 1: chk('u', u, sv, 1e-13); chk('udot', ud, cv, 1e-12)
+        if mk == 2: chk('udot', ud, sv, 1e-12)
+        if mk == 3: chk('u', u, A, 1e-14); chk('udot', ud, 0.0, 1e-13)       # A holds the rate
+        mbworst['motion_error'] = max(mbworst['motion_error'], *errs)
+        if max(errs) > 1e-12: prob = prob or 'calcMotionErrors after prescribe: %g %g %g' % tuple(errs)
+        if mk == 0 and eu and mt in (0, 1, 4): pbq.append((l, q[:3], cv, dv, u[:3], ud[:3]))
+        if prob and mbfirst is None: mbfirst = ('MB %d %d %d %d' % (seed, mt, mk, eu), prob)
+    if pbq:
+        r4, o4, e4 = sh([drv], input=''.join('PB %s %s %s %s %s\n' % (hexf(x[1][0]), hexf(x[1][1]), hexf(x[1][2]), hexf(x[2]), hexf(x[3])) for x in pbq), timeout=600)
+        bl = [l.split() for l in o4.split('\n') if l.startswith('B ')]
+        if len(bl) != len(pbq): ctx.broken.append(('correspondence:driver-pb', 'model answered %d of %d: %s' % (len(bl), len(pbq), e4[-200:])))
+        else:
+            for x, b_ in zip(pbq, bl):
+                mu = [float.fromhex(v) for v in b_[1:4]]; mud = [float.fromhex(v) for v in b_[4:7]]
+                for i in range(3):
+                    nmbeval += 2; du = abs(mu[i] - x[4][i]); dud = abs(mud[i] - x[5][i]); mbworst['model_u'] = max(mbworst['model_u'], du); mbworst['model_udot'] = max(mbworst['model_udot'], dud)
+                    if (du > 1e-12 * max(1, abs(mu[i])) or dud > 1e-11 * max(1, abs(mud[i]))) and mbfirst is None:
+                        hd = x[0].split('|')[0].split()
+                        mbfirst = ('MB %s %s %s %s' % tuple(hd[1:5]), 'prescribed u/udot of the mobilizer differ from the qdot = N(q) u model: u[%d] %r vs %r, udot[%d] %r vs %r' % (i, x[4][i], mu[i], i, x[5][i], mud[i]))
+    ctx.extra['multi_coordinate'] = {'systems': len(mb), 'worst': mbworst, 'by_mobilizer_motion_euler': {'%d/%d/%d' % k: v for k, v in sorted(mbdist.items())}, 'model_compared': len(pbq)}
+    if mbfirst:
+        ctx.broken.append(('correspondence:multi-coordinate-motion', '%s: %s' % mbfirst))
+        ctx.report('impl:' + mbfirst[0].replace(' ', '_'), 'implementation violates the C10 predicate (Motion on a multi-coordinate mobilizer): ' + mbfirst[1],
+                   {'failing_input': mbfirst[0], 'replay_cmd': 'echo "%s" | build/C10/C10_motion' % mbfirst[0]})
+    neval += nmbeval
     ctx.add_cases(neval + nlock, sum(1 for s in seqs if any(o.startswith('PR') for o in s[1]) and any(o.startswith(('LK', 'LA')) for o in s[1])),
                   ['SYS kind=%d cons=%d' % (c[1], c[2]) for c in cases[:2]] + [' ; '.join(seqs[0][1])])
     ctx.cov['rule'] = ('correspondence: %d random systems (8 kinds of prescription x with/without a Rod constraint): prescribed q/u/udot vs the extracted model (1e-14), '
                        'calcMotionErrors = 0 (1e-13), certificate re-run without prescription under f - tau (1e-9; f + tau must fail), free behaviour after unlock/disable (1e-12); '
-                       '%d lock-state-machine sequences (<= 25 operations) compared after every operation (%d operations); evaluations = quantities compared; '
-                       'non-trivial = lock sequences containing both a lock and a prescribe' % (len(pm), nseq, nlock))
+                       '%d lock-state-machine sequences (<= 25 operations) compared after every operation (%d operations); %d systems with a Motion on a Ball / Free / Gimbal / '
+                       'Bushing / Ellipsoid (Sinusoid at the three levels, Steady; Euler and quaternion mode): getQDot / getQDotDot / u / udot vs the Motion (1e-12 .. 1e-11) and, for '
+                       'position-level Motions on Ball / Free / Ellipsoid, u and udot vs the extracted qdot = N(q) u model; evaluations = quantities compared; '
+                       'non-trivial = lock sequences containing both a lock and a prescribe' % (len(pm), nseq, nlock, len(mb)))
     ctx.extra['worst'] = worst; ctx.extra['distribution'] = {'kinds': kinds, 'lock_levels_seen': levels, 'lock_sequences': nseq}
     if first:
         ctx.broken.append(('correspondence:prescribed-motion', '%s: %s' % (first[0], first[1])))
@@ -125,8 +185,9 @@ def run(ctx):
         ctx.report('impl:lock:' + sid, 'lock state machine: implementation "%s" vs model "%s"' % (x, y), {'failing_input': ' ; '.join(small)})
     ctx.assumptions += [
         'theorems are over the reals / over an abstract NumOps; the correspondence evaluates the extracted formulas in binary64 (same libm as the implementation)',
-        'the lock state machine is modelled for a mobilizer with one coordinate and qdot = u (Pin, Slider); multi-coordinate mobilizers, quaternions (u = N^-1 qdot) '
-        'and Motion::Custom are not modelled; the systems of part (1) put prescription on a Slider or a Pin inside a tree with a Gimbal',
+        'the lock state machine is modelled for a mobilizer with one coordinate and qdot = u (Pin, Slider); position-level prescription on a mobilizer with qdot = N(q) u '
+        '(Ball, Free, Ellipsoid, Euler-angle mode) is modelled with the translated Rotation.h helpers (C10_PrescModel.v); a position-level Motion on quaternion coordinates and '
+        'Motion::Custom are not modelled (velocity / acceleration level Motions in quaternion mode are checked on the implementation only)',
         'motion_forces_reproduce is abstract linear algebra (hypotheses: vector-space laws, positive definite mass operator); that simbody\'s M is that operator is C01',
         'certificate tolerance 1e-9 relative (two forward-dynamics solves), motion errors 1e-13, prescribed values 1e-14']
     ctx.finish()
